@@ -140,13 +140,13 @@ Definition c10_ts_member_ok (m : ts_member) : bool :=
 Definition c10_ts_variant_ok (v : ts_variant) : bool :=
   match v with
   | TVUnit docs _ => forallb c10_doc_ok docs
-  | TVTuple docs _ ty _ => forallb c10_doc_ok docs && c10_texp_ok c10_lex_ts ty
+  | TVTuple docs _ ty _ _ => forallb c10_doc_ok docs && c10_texp_ok c10_lex_ts ty
   | TVStruct docs _ ms => forallb c10_doc_ok docs && forallb c10_ts_member_ok ms
   end.
 Definition c10_ts_decl_ok (d : ts_decl) : bool :=
   match d with
   | TSInterface docs name gs ms => forallb c10_doc_ok docs && c10_tok_ok name && forallb c10_tok_ok gs && forallb c10_ts_member_ok ms
-  | TSAlias docs name gs ty _ => forallb c10_doc_ok docs && c10_tok_ok name && forallb c10_tok_ok gs && c10_texp_ok c10_lex_ts ty
+  | TSAlias docs name gs ty _ _ => forallb c10_doc_ok docs && c10_tok_ok name && forallb c10_tok_ok gs && c10_texp_ok c10_lex_ts ty
   | TSConst name ty value => c10_tok_ok name && c10_texp_ok c10_lex_ts ty && c10_tok_ok value
   | TSUnitEnum docs name gs vs =>
     forallb c10_doc_ok docs && c10_tok_ok name && forallb c10_tok_ok gs &&
@@ -179,7 +179,7 @@ Lemma ts_render_variant_bal tag content v : c10_tok_ok tag = true -> c10_tok_ok 
   bal c10_lex_ts (ts_render_variant tag content v).
 Proof.
   intros Htag Hcon Hv. pose proof (tok_bal c10_lex_ts _ Htag) as H1. pose proof (tok_bal c10_lex_ts _ Hcon) as H2.
-  destruct v as [docs wire | docs wire ty opt | docs wire ms]; cbn [c10_ts_variant_ok ts_render_variant] in *;
+  destruct v as [docs wire | docs wire ty opt nullu | docs wire ms]; cbn [c10_ts_variant_ok ts_render_variant] in *;
     pose proof (debug_str_bal c10_lex_ts wire eq_refl) as Hw.
   - pose proof (ts_comments_bal 1 _ Hv) as Hd. intros st. walk. reflexivity.
   - apply andb_true_iff in Hv as [Hv Hty]. pose proof (ts_comments_bal 1 _ Hv) as Hd. pose proof (ts_show_bal _ Hty) as Hs.
@@ -190,7 +190,7 @@ Qed.
 
 Theorem ts_render_decl_bal d : c10_ts_decl_ok d = true -> bal c10_lex_ts (ts_render_decl d).
 Proof.
-  destruct d as [docs name gs ms | docs name gs ty undef | name ty value | docs name gs vs | docs name gs tag content vs];
+  destruct d as [docs name gs ms | docs name gs ty undef nullu | name ty value | docs name gs vs | docs name gs tag content vs];
     cbn [c10_ts_decl_ok ts_render_decl]; rewrite ?andb_true_iff; intros H.
   - destruct H as [[[Hd Hn] Hg] Hm].
     pose proof (ts_comments_bal 0 _ Hd) as H1. pose proof (tok_bal c10_lex_ts _ Hn) as H2.
